@@ -201,6 +201,22 @@ func genMany(g *vh.Gen) {
 		ops = append(ops, "l0", "l1", "v")
 		sd.EmitHistory(g, []string{"mem"}, "direct", 0, 4, names, joinOps(ops))
 	}
+	// the same an order of magnitude up: limit 16 KiB, 256 resident messages of 60 bytes (15 360 bytes),
+	// one delivery displacing 100, 129, 200 or all 256 of them
+	for _, k := range []int{100, 129, 200, 256} {
+		date := 1600006000
+		var ops []string
+		for j := 0; j < 256; j++ {
+			date += 2
+			ops = append(ops, "a"+vh.I(j%2)+":"+vh.I(date)+":60")
+		}
+		large := 16384
+		if k < 256 {
+			large = 1024 + 60*k - 30
+		}
+		ops = append(ops, "a0:"+vh.I(date+5)+":"+vh.I(large), "l0", "l1", "v")
+		sd.EmitHistory(g, []string{"mem"}, "direct", 0, 16, []string{"many-a", "many-b"}, joinOps(ops))
+	}
 }
 
 // genConfig: the CONFIGURATION as an operator can write it, through the real constructors
